@@ -199,4 +199,4 @@ pub(crate) fn rebuild_index_from_compaction_sidecar_v1(
 
 #[cfg(kani)]
 #[path = "/verif/harness/ripd/compaction_checkpoint_index.rs"]
-mod verif_kani;
+pub mod verif_kani;
